@@ -14,7 +14,9 @@ def _run(a, b, boundary, start, end, level):
     if len(g.coords) and not (min(g.coords) >= start - 1e-12 * max(1, abs(start)) and max(g.coords) <= end + 1e-12 * max(1, abs(end))):
         bad.append("points outside [start,end]")
     # composite trapezoidal weights of the returned points (independent reference): h/2 at the two ends of the box, h elsewhere
-    n = 2 ** level + 1
+    # (n = number of equidistant points of the box including its two ends, as the grid itself announces it: the growth rule level -> n is
+    #  not part of C08)
+    n = int(getattr(g, "num_points_with_boundary", 2 ** level + 1))
     if len(g.coords) == len(g.weights) and not (not boundary and g.num_points == 1) and n >= 2:
         h = (end - start) / (n - 1)
         for x, w in zip(g.coords, g.weights):
